@@ -401,7 +401,7 @@ func (c *Client) SendIQ(ctx context.Context, iq *stanza.IQ) (chan stanza.IQ, err
 	// before Send returns.
 	result := c.router.NewIQResultRoute(ctx, iq.Attrs.Id)
 	if err := c.Send(iq); err != nil {
-		c.router.removeIQResultRoute(iq.Attrs.Id)
+		c.router.removeIQResultRoute(iq.Attrs.Id, result)
 		return nil, err
 	}
 	return result, nil
